@@ -43,9 +43,16 @@ func genKey(t *rapid.T, exotic bool, long bool) string {
 var quarterTexts = []string{"0", "0.25", "0.5", "0.75", "1", "1.5", "2", "2.25", "2.5", "3", "3.75", "4", "5.5", "7", "10", "-0.5", "-1.25", "-2"}
 var wordPool = []string{"", "a", "b", "c", "ab", "bc", "abc", "A", "Ab", "aa", "ba", "x1", "12", "c", "bc"}
 
-func genValue(t *rapid.T, kind StoreKind) string {
+// extremeInts: integers whose differences and sums leave the int64 range
+var extremeInts = []string{"9000000000000000000", "-9000000000000000000", "9223372036854775807", "-9223372036854775808",
+	"4611686018427387904", "-4611686018427387905", "1099511627776", "-2147483649"}
+
+func genValue(t *rapid.T, kind StoreKind, extreme bool) string {
 	switch kind {
 	case KInt:
+		if extreme && rapid.IntRange(0, 2).Draw(t, "intExtreme") == 0 {
+			return rapid.SampledFrom(extremeInts).Draw(t, "iext")
+		}
 		if rapid.IntRange(0, 9).Draw(t, "intNeg") == 0 {
 			return strconv.Itoa(-rapid.IntRange(1, 9).Draw(t, "ineg"))
 		}
@@ -90,9 +97,10 @@ func genJSONText(t *rapid.T) string {
 func GenStore(t *rapid.T, kind StoreKind, n int) []Pair {
 	exotic := rapid.IntRange(0, 7).Draw(t, "exoticKeys") == 0
 	m := map[string]string{}
+	extreme := kind == KInt && rapid.IntRange(0, 5).Draw(t, "extremeValues") == 0
 	for i := 0; i < n; i++ {
 		k := genKey(t, exotic, n > 20)
-		m[k] = genValue(t, kind)
+		m[k] = genValue(t, kind, extreme)
 	}
 	ret := make([]Pair, 0, len(m))
 	for k, v := range m {
